@@ -1,493 +1,18 @@
 /-
 C04 — pseudoinverse really inverts; alignment inverses swap source and target.
 
-Property theorems (marked PROPERTY) over the executable models `Core/C04Homog.lean`, `Core/C04Warp.lean`.
-
-  homogeneous family (any dimension d ≥ 1; menpo uses d = 2, 3)
-    inv_two_sided, inv_contract_unique      the modelled `np.linalg.inv` is the two-sided inverse, and the only matrix
-                                            meeting the library contract `A · B = 1`
-    applyH_left_inverse (Lemmas)            a left-inverse matrix undoes `apply` on every point of the domain
-    pinvH_sound                             every class: `pseudoinverse()` computes the inverse matrix and the result is an
-                                            honest member of the same class (closed forms included)
-    pinv_sound          PROPERTY            object level: same class, inverse matrix, honest, source/target exchanged,
-                                            undoes `apply` from both sides on every point of either domain
-    rotation_inverse_orientation            the inverse of a proper rotation is proper (determinant kept)
-    tcoords_roundtrip   PROPERTY            image_coords_to_tcoords / tcoords_to_image_coords are mutually inverse
-  piecewise affine
-    pwa_pinv_left / pwa_pinv_right  PROPERTY   two-sided round trip on the whole source / target domain
-    mesh_pinv, mesh_pinv_ends       PROPERTY   the inverse is the PWA on (target points, same trilist) → source points
-    pwa_pinv_landmarks              PROPERTY   every target landmark of a triangle returns to its source landmark
-    pwa_edge_continuity                        pieces of triangles sharing an edge agree on it (what `TargetConsistent` asks)
-  thin plate splines
-    tps_interpolates                PROPERTY   kernel centred on the source points ⇒ the fitted spline hits every target
-    tps_pinvFixed_reverse_fit       PROPERTY   the repaired inverse is the reverse fit and returns every landmark
-    tps_pinvCoded_refuted                      the inverse AS CODED (kernel re-used) is not: witness (DESIGN §7 #1)
+The property theorems live in
+  Props/C04Base.lean   the inverse of one object: homogeneous family (every class, every dimension), tcoords,
+                       piecewise affine, thin plate splines
+  Props/C04Ops.lean    objects with a previous life: operation sequences (mutators and queries in any order),
+                       closure of every class under in-place composition, the inverse of the inverse
+  Props/C04Mesh.lean   the executable triangulation certificate is sound: the hypotheses of the piecewise-affine round
+                       trip are decided on every generated mesh; `index_alpha_beta`
+  Props/C04Tps.lean    what the SVD-based solve of the spline computes (from numpy's raw SVD contract); the two
+                       kernel classes define the same warp
+and the obligations over the tables regenerated from the live classes in GenProps/C04.lean.
 -/
-import MenpoModel.Lemmas.C04Affine
-import MenpoModel.Lemmas.C04Warp
-import Mathlib.LinearAlgebra.Matrix.Notation
-import Mathlib.Tactic.FinCases
-
-set_option linter.unusedSimpArgs false
-
-namespace MenpoModel.C04
-open Matrix
-
-variable {d : ℕ}
-
-/-! ## homogeneous family -/
-
-theorem inv_two_sided {n : ℕ} {A B : Mat n} (h : inv A = some B) :
-    toM A * toM B = 1 ∧ toM B * toM A = 1 := by
-  by_cases hd : (toM A).det = 0
-  · rw [inv_eq_none A hd] at h; cases h
-  · rw [inv_eq_some A hd] at h
-    have hB := Option.some.inj h
-    have hu : IsUnit (toM A).det := isUnit_iff_ne_zero.mpr hd
-    rw [← hB]
-    exact ⟨by simp [Matrix.mul_nonsing_inv _ hu], by simp [Matrix.nonsing_inv_mul _ hu]⟩
-
-theorem inv_contract_unique {n : ℕ} {A B : Mat n} (h : toM A * toM B = 1) : inv A = some B := by
-  have hd : (toM A).det ≠ 0 := Matrix.det_ne_zero_of_right_inverse h
-  rw [inv_eq_some A hd, Matrix.inv_eq_right_inv h]; rfl
-
-theorem inv_isSome_iff {n : ℕ} (A : Mat n) : (inv A).isSome ↔ det n A ≠ 0 := by
-  unfold inv; split <;> simp_all
-
-theorem applyH_affine_isSome {H : Mat (d + 1)} (h : IsAffineM H) (x : Vec d) : (applyH H x).isSome := by
-  unfold applyH
-  have : H.mulVec (hom x) (Fin.last d) = 1 := by
-    rw [mulVec_eq, Matrix.mulVec, dotProduct, Fin.sum_univ_castSucc]
-    simp [h.1, h.2]
-  simp [this]
-
-theorem tcoords_det (h w : ℚ) : (toM (tcoordsToImage h w)).det = (h - 1) * (w - 1) := by
-  rw [Matrix.det_fin_three]
-  simp [tcoordsToImage, Mat.mul, sumFin, List.finRange, List.ofFn, m3, ofAffine, diagM, Fin.foldr_succ_last]
-  ring
-
-theorem toM_diagM (v : Vec d) : toM (diagM v) = Matrix.diagonal v := by
-  ext i j; simp [diagM, Matrix.diagonal_apply]
-
-theorem similarity_inverse {L : Matrix (Fin d) (Fin d) ℚ} {k : ℚ} (hk : k ≠ 0) (h : L * Lᵀ = k • 1) :
-    L⁻¹ = k⁻¹ • Lᵀ ∧ L⁻¹ * L⁻¹ᵀ = k⁻¹ • 1 := by
-  have h1 : L * (k⁻¹ • Lᵀ) = 1 := by
-    rw [Matrix.mul_smul, h, smul_smul, inv_mul_cancel₀ hk, one_smul]
-  have hinv : L⁻¹ = k⁻¹ • Lᵀ := Matrix.inv_eq_right_inv h1
-  have hu : IsUnit L.det := isUnit_iff_ne_zero.mpr (Matrix.det_ne_zero_of_right_inverse h1)
-  have h2 : (k⁻¹ • Lᵀ) * L = 1 := by rw [← hinv]; exact Matrix.nonsing_inv_mul _ hu
-  have h3 : Lᵀ * L = k • 1 := by
-    have := congrArg (fun M => k • M) h2
-    simp only [Matrix.smul_mul, smul_smul, mul_inv_cancel₀ hk, one_smul] at this
-    exact this
-  refine ⟨hinv, ?_⟩
-  rw [hinv, Matrix.transpose_smul, Matrix.transpose_transpose, Matrix.smul_mul, Matrix.mul_smul, h3,
-    smul_smul, smul_smul, mul_assoc, inv_mul_cancel₀ hk, mul_one]
-
-/-- class invariants: what it means for a matrix to be an honest member of each family class -/
-def Honest : Cls → Mat (d + 1) → Prop
-  | .homogeneous, _ => True
-  | .affine, H | .alignmentAffine, H => IsAffineM H
-  | .similarity, H | .alignmentSimilarity, H =>
-      IsAffineM H ∧ ∃ k : ℚ, 0 < k ∧ toM (linPart H) * (toM (linPart H))ᵀ = k • 1
-  | .rotation, H | .alignmentRotation, H =>
-      IsAffineM H ∧ toM (linPart H) * (toM (linPart H))ᵀ = 1 ∧ transPart H = fun _ => 0
-  | .translation, H | .alignmentTranslation, H => IsAffineM H ∧ linPart H = Mat.one
-  | .uniformScale, H | .alignmentUniformScale, H =>
-      IsAffineM H ∧ (transPart H = fun _ => 0) ∧ ∃ s : ℚ, s ≠ 0 ∧ linPart H = diagM fun _ => s
-  | .nonUniformScale, H =>
-      IsAffineM H ∧ (transPart H = fun _ => 0) ∧ ∃ v : Vec d, (∀ i, v i ≠ 0) ∧ linPart H = diagM v
-
-theorem mulVec_zero' (M : Matrix (Fin d) (Fin d) ℚ) : M *ᵥ (fun _ => (0 : ℚ)) = fun _ => 0 := by
-  funext i; simp [Matrix.mulVec, dotProduct]
-
-theorem neg_zero_fun : (-(fun _ : Fin d => (0 : ℚ))) = fun _ => 0 := by funext i; simp
-
-/-- the matrix computed by `pseudoinverse()` is the inverse matrix, and it is an honest member
-of the same class -/
-theorem pinvH_sound (hd : 0 < d) (c : Cls) (H : Mat (d + 1)) (hh : Honest c H)
-    (hdet : (toM H).det ≠ 0) :
-    ∃ B, pinvH c H = some B ∧ toM B = (toM H)⁻¹ ∧ Honest c B := by
-  have generic : ∀ c' : Cls, Honest c' (ofM (toM H)⁻¹) → pinvH c' H = inv H →
-      ∃ B, pinvH c' H = some B ∧ toM B = (toM H)⁻¹ ∧ Honest c' B := by
-    intro c' h1 h2
-    exact ⟨ofM (toM H)⁻¹, by rw [h2, inv_eq_some H hdet], by simp, h1⟩
-  have hu : IsUnit (toM H).det := isUnit_iff_ne_zero.mpr hdet
-  have hHB : toM H * toM (ofM (toM H)⁻¹) = 1 := by simp [Matrix.mul_nonsing_inv _ hu]
-  -- facts for affine classes
-  have aff : IsAffineM H → IsAffineM (ofM (toM H)⁻¹) ∧
-      linPart (ofM (toM H)⁻¹) = ofM (toM (linPart H))⁻¹ ∧
-      transPart (ofM (toM H)⁻¹) = -((toM (linPart H))⁻¹ *ᵥ transPart H) := by
-    intro ha
-    obtain ⟨_, e⟩ := affine_inverse ha hdet
-    have e' : ofM (toM H)⁻¹ = ofAffine (ofM (toM (linPart H))⁻¹) (-((toM (linPart H))⁻¹ *ᵥ transPart H)) := by
-      rw [e]; rfl
-    refine ⟨isAffineM_of_right_inverse ha hHB, ?_, ?_⟩
-    · rw [e']; simp
-    · rw [e']; simp
-  cases c with
-  | homogeneous => exact generic _ trivial rfl
-  | affine => exact generic _ (aff hh).1 rfl
-  | alignmentAffine => exact generic _ (aff hh).1 rfl
-  | similarity =>
-    obtain ⟨ha, k, hk, hL⟩ := hh
-    obtain ⟨a1, a2, _⟩ := aff ha
-    refine generic _ ⟨a1, k⁻¹, inv_pos.mpr hk, ?_⟩ rfl
-    rw [a2]; exact (similarity_inverse hk.ne' hL).2
-  | alignmentSimilarity =>
-    obtain ⟨ha, k, hk, hL⟩ := hh
-    obtain ⟨a1, a2, _⟩ := aff ha
-    refine generic _ ⟨a1, k⁻¹, inv_pos.mpr hk, ?_⟩ rfl
-    rw [a2]; exact (similarity_inverse hk.ne' hL).2
-  | alignmentRotation =>
-    obtain ⟨ha, hL, ht⟩ := hh
-    obtain ⟨a1, a2, a3⟩ := aff ha
-    have hL' : toM (linPart H) * (toM (linPart H))ᵀ = (1 : ℚ) • 1 := by simpa using hL
-    refine generic _ ⟨a1, ?_, ?_⟩ rfl
-    · rw [a2]; simpa using (similarity_inverse one_ne_zero hL').2
-    · rw [a3, ht, mulVec_zero', neg_zero_fun]
-  | rotation =>
-    obtain ⟨ha, hL, ht⟩ := hh
-    obtain ⟨a1, a2, a3⟩ := aff ha
-    obtain ⟨hdL, e⟩ := affine_inverse ha hdet
-    have hL' : toM (linPart H) * (toM (linPart H))ᵀ = (1 : ℚ) • 1 := by simpa using hL
-    refine ⟨ofAffine (ofM (toM (linPart H))⁻¹) fun _ => 0, ?_, ?_, ?_⟩
-    · simp [pinvH, inv_eq_some _ hdL]
-    · rw [e, ht, mulVec_zero', neg_zero_fun]
-    · refine ⟨isAffineM_ofAffine _ _, ?_, by simp⟩
-      simpa using (similarity_inverse one_ne_zero hL').2
-  | translation =>
-    obtain ⟨ha, hL⟩ := hh
-    obtain ⟨hdL, e⟩ := affine_inverse ha hdet
-    refine ⟨ofAffine Mat.one fun i => - transPart H i, rfl, ?_, isAffineM_ofAffine _ _, by simp⟩
-    rw [e, hL, one_eq, inv_one, Matrix.one_mulVec]
-    congr 1
-  | alignmentTranslation =>
-    obtain ⟨ha, hL⟩ := hh
-    obtain ⟨a1, a2, _⟩ := aff ha
-    refine generic _ ⟨a1, ?_⟩ rfl
-    rw [a2, hL, one_eq, inv_one]
-    funext i j; simp [Mat.one, Matrix.one_apply]
-  | uniformScale =>
-    obtain ⟨ha, ht, s, hs, hL⟩ := hh
-    obtain ⟨hdL, e⟩ := affine_inverse ha hdet
-    have h00 : H 0 0 = s := by
-      have : (0 : Fin (d + 1)) = (⟨0, hd⟩ : Fin d).castSucc := by ext; simp
-      have h1 := congrFun (congrFun hL ⟨0, hd⟩) ⟨0, hd⟩
-      simp only [linPart, diagM, if_true] at h1
-      rw [this]; exact h1
-    have hinv : (toM (linPart H))⁻¹ = toM (diagM fun _ => 1 / s) := by
-      apply Matrix.inv_eq_right_inv
-      rw [hL, toM_diagM, toM_diagM, Matrix.diagonal_mul_diagonal]
-      simp [hs]
-    refine ⟨ofAffine (diagM fun _ => 1 / H 0 0) fun _ => 0, rfl, ?_, isAffineM_ofAffine _ _, by simp,
-      1 / H 0 0, by rw [h00]; simp [hs], by simp⟩
-    rw [e, ht, mulVec_zero', neg_zero_fun, hinv, h00]
-    rfl
-  | alignmentUniformScale =>
-    obtain ⟨ha, ht, s, hs, hL⟩ := hh
-    obtain ⟨a1, a2, a3⟩ := aff ha
-    have hinv : (toM (linPart H))⁻¹ = toM (diagM fun _ => 1 / s) := by
-      apply Matrix.inv_eq_right_inv
-      rw [hL, toM_diagM, toM_diagM, Matrix.diagonal_mul_diagonal]
-      simp [hs]
-    refine generic _ ⟨a1, ?_, 1 / s, by simp [hs], ?_⟩ rfl
-    · rw [a3, ht, mulVec_zero', neg_zero_fun]
-    · rw [a2, hinv]; rfl
-  | nonUniformScale =>
-    obtain ⟨ha, ht, v, hv, hL⟩ := hh
-    obtain ⟨hdL, e⟩ := affine_inverse ha hdet
-    have hii : ∀ i : Fin d, H i.castSucc i.castSucc = v i := by
-      intro i
-      have h1 := congrFun (congrFun hL i) i
-      simpa [linPart, diagM] using h1
-    have hinv : (toM (linPart H))⁻¹ = toM (diagM fun i => 1 / v i) := by
-      apply Matrix.inv_eq_right_inv
-      rw [hL, toM_diagM, toM_diagM, Matrix.diagonal_mul_diagonal]
-      have : (fun i => v i * (1 / v i)) = fun _ => (1 : ℚ) := by
-        funext i; field_simp [hv i]
-      rw [this, Matrix.diagonal_one]
-    refine ⟨ofAffine (diagM fun i => 1 / H i.castSucc i.castSucc) fun _ => 0, rfl, ?_,
-      isAffineM_ofAffine _ _, by simp, fun i => 1 / H i.castSucc i.castSucc, ?_, by simp⟩
-    · rw [e, ht, mulVec_zero', neg_zero_fun, hinv]
-      simp only [hii]
-      rfl
-    · intro i; simp only [hii]; simp [hv i]
-
-
-/-- PROPERTY (homogeneous family, every class incl. alignments, every dimension d ≥ 1):
-for an honest, non-singular member `t`, `t.pseudoinverse()` exists, has the same class, carries exactly the inverse
-matrix, is itself an honest member of that class, has source and target exchanged, and undoes `t.apply` from both
-sides on every point of the respective domain. -/
-theorem pinv_sound {α : Type} (hd : 0 < d) (t : HT d α) (hh : Honest t.cls t.h) (hdet : (toM t.h).det ≠ 0) :
-    ∃ u, pinv t = some u ∧ u.cls = t.cls ∧ toM u.h = (toM t.h)⁻¹ ∧ Honest u.cls u.h ∧
-      u.ends = t.ends.map (fun e => (e.2, e.1)) ∧
-      (∀ x y, t.apply x = some y → u.apply y = some x) ∧
-      (∀ x y, u.apply y = some x → t.apply x = some y) := by
-  obtain ⟨B, hB, hinv, hhon⟩ := pinvH_sound hd t.cls t.h hh hdet
-  have hu : IsUnit (toM t.h).det := isUnit_iff_ne_zero.mpr hdet
-  refine ⟨{ cls := t.cls, h := B, ends := t.ends.map fun e => (e.2, e.1) }, by simp [pinv, hB], rfl, hinv,
-    hhon, rfl, ?_, ?_⟩
-  · intro x y h
-    exact applyH_left_inverse (H := t.h) (B := B) (by rw [hinv, Matrix.nonsing_inv_mul _ hu]) h
-  · intro x y h
-    exact applyH_left_inverse (H := B) (B := t.h) (by rw [hinv, Matrix.mul_nonsing_inv _ hu]) h
-
-/-- an affine member is defined on every point, so the round trips above cover the whole space -/
-theorem affine_total {α : Type} (t : HT d α) (h : IsAffineM t.h) (x : Vec d) : (t.apply x).isSome :=
-  applyH_affine_isSome h x
-
-/-- the inverse of a proper rotation is a proper rotation: orthogonality gives `det = ±1`, kept by inversion -/
-theorem rotation_inverse_orientation {L : Matrix (Fin d) (Fin d) ℚ} (h : L * Lᵀ = 1) : L⁻¹.det = L.det := by
-  have h1 : L.det * L.det = 1 := by
-    have := congrArg Matrix.det h
-    rwa [Matrix.det_mul, Matrix.det_transpose, Matrix.det_one] at this
-  have hne : L.det ≠ 0 := by intro h0; rw [h0] at h1; simp at h1
-  rw [Matrix.det_nonsing_inv, Ring.inverse_eq_inv']
-  field_simp
-  linarith [h1]
-
-/-! ### tcoords.py -/
-
-/-- PROPERTY (tcoords): for an image with more than one pixel along each axis the two conversions exist, are
-`Homogeneous` inverses of each other, and undo each other on every point from both sides. -/
-theorem tcoords_roundtrip (h w : ℚ) (hh : h ≠ 1) (hw : w ≠ 1) :
-    ∃ B, imageToTcoords h w = some B ∧ toM B = (toM (tcoordsToImage h w))⁻¹ ∧
-      (∀ p q, applyH (tcoordsToImage h w) p = some q → applyH B q = some p) ∧
-      (∀ p q, applyH B q = some p → applyH (tcoordsToImage h w) p = some q) := by
-  have hdet : (toM (tcoordsToImage h w)).det ≠ 0 := by
-    rw [tcoords_det]; exact mul_ne_zero (sub_ne_zero.mpr hh) (sub_ne_zero.mpr hw)
-  obtain ⟨u, hu, _, hinv, _, _, l, r⟩ :=
-    pinv_sound (α := Unit) (by decide : 0 < 2) ⟨.homogeneous, tcoordsToImage h w, none⟩ trivial hdet
-  simp only [pinv, Option.map_eq_some_iff] at hu
-  obtain ⟨B, hB, rfl⟩ := hu
-  exact ⟨B, hB, hinv, l, r⟩
-
-/-- what `tcoords_to_image_coords` does to a texture coordinate `(s, t)`: `((1 − t)(h − 1), s (w − 1))` -/
-theorem tcoords_formula (h w s t : ℚ) :
-    (applyH (tcoordsToImage h w) (fun i => if i.val = 0 then s else t)).map (fun v => (v 0, v 1))
-      = some ((1 - t) * (h - 1), s * (w - 1)) := by
-  simp [applyH, tcoordsToImage, Mat.mul, Mat.mulVec, sumFin, List.finRange, List.ofFn, m3, ofAffine, diagM, hom,
-    Fin.foldr_succ_last]
-  constructor <;> ring
-
-/-! ### the hypotheses are satisfiable (non-vacuity) -/
-
-/-- a 2-D similarity: rotation by 90°, scale 2, translation (1, 3) -/
-def exSim : HT 2 String := ⟨.alignmentSimilarity, m3 0 (-2) 1 2 0 3 0 0 1, some ("source", "target")⟩
-
-theorem exSim_honest : Honest exSim.cls exSim.h := by
-  refine ⟨⟨fun j => ?_, by simp [exSim, m3]⟩, 4, by norm_num, ?_⟩
-  · fin_cases j <;> simp [exSim, m3]
-  · ext i j
-    fin_cases i <;> fin_cases j <;>
-      simp [exSim, m3, linPart, Matrix.mul_apply, Fin.sum_univ_two, Matrix.one_apply] <;> norm_num
-
-theorem exSim_det : (toM exSim.h).det ≠ 0 := by
-  rw [Matrix.det_fin_three]; simp [exSim, m3]
-
-example : ∃ u, pinv exSim = some u ∧ u.cls = .alignmentSimilarity ∧ u.ends = some ("target", "source") ∧
-    u.apply (fun i => if i.val = 0 then 1 else 5) = some (fun i => if i.val = 0 then 1 else 0) := by
-  obtain ⟨u, h1, h2, _, _, h5, h6, _⟩ := pinv_sound (by decide) exSim exSim_honest exSim_det
-  refine ⟨u, h1, h2, h5, h6 _ _ ?_⟩
-  simp [HT.apply, applyH, exSim, Mat.mulVec, sumFin, List.finRange, List.ofFn, m3, hom, Fin.foldr_succ_last]
-  funext i; fin_cases i <;> (simp [sumFin, List.finRange, List.ofFn, m3, hom, Fin.foldr_succ_last]; try norm_num)
-
-/-- the closed forms, executed: inverse of a non-uniform 3-D scale and of a translation -/
-example : (pinvH .nonUniformScale (ofAffine (d := 3) (diagM fun i => (i.val : ℚ) + 2) fun _ => 0)).map
-    (fun B => [B 0 0, B 1 1, B 2 2, B 3 3, B 0 1]) = some [1/2, 1/3, 1/4, 1, 0] := by decide +kernel
-example : (pinvH .translation (m3 1 0 5 0 1 (-7) 0 0 1)).map (fun B => [B 0 2, B 1 2, B 0 0]) = some [-5, 7, 1] := by
-  decide +kernel
-/-- a singular matrix has no pseudoinverse (`np.linalg.inv` raises) -/
-example : (pinvH .homogeneous (m3 1 2 3 2 4 6 0 0 1)).isNone := by decide +kernel
-
-/-! ## piecewise affine -/
-
-/-- every triangle of the mesh, in source and in target, is non-degenerate -/
-def NonDegenerate (m : PWA) : Prop := ∀ q ∈ m, q.1.cross ≠ 0 ∧ q.2.cross ≠ 0
-
-/-- the target triangles form a proper mesh as far as the map is concerned: wherever two of them
-overlap (for a triangulation: on shared edges and vertices) their inverse pieces agree -/
-def TargetConsistent (m : PWA) : Prop :=
-  ∀ q ∈ m, ∀ r ∈ m, ∀ y, q.2.contains y = true → r.2.contains y = true → piece q.2 q.1 y = piece r.2 r.1 y
-
-theorem nonDegenerate_pinv {m : PWA} (h : NonDegenerate m) : NonDegenerate m.pinv := by
-  intro q hq
-  have := h _ (mem_pinv.mp hq)
-  exact ⟨this.2, this.1⟩
-
-/-- round trip on the whole source domain: whatever triangle `apply` used for `x` and whatever triangle the
-inverse looks up for the image, the inverse returns `x` -/
-theorem pwa_pinv_left {m : PWA} (hnd : NonDegenerate m) (hc : TargetConsistent m) {x y : P2}
-    (h : m.apply x = some y) : m.pinv.apply y = some x := by
-  unfold PWA.apply at h
-  cases hl : m.lookup x with
-  | none => rw [hl] at h; cases h
-  | some q =>
-    rw [hl] at h
-    have hy : y = piece q.1 q.2 x := (Option.some.inj h).symm
-    obtain ⟨hqm, hqc⟩ := lookup_some hl
-    obtain ⟨hq1, hq2⟩ := hnd q hqm
-    have hcy : q.2.contains y = true := by rw [hy, contains_piece _ _ hq2]; exact hqc
-    have hqp : (q.2, q.1) ∈ m.pinv := mem_pinv.mpr (by simpa using hqm)
-    obtain ⟨r, hr⟩ := lookup_exists (m := m.pinv) (q := (q.2, q.1)) hqp hcy
-    obtain ⟨hrm, hrc⟩ := lookup_some hr
-    unfold PWA.apply
-    rw [hr]
-    simp only [Option.map_some, Option.some.injEq]
-    have hrm' : (r.2, r.1) ∈ m := mem_pinv.mp hrm
-    have := hc (r.2, r.1) hrm' q hqm y (by simpa using hrc) hcy
-    simp only at this
-    rw [this, hy, piece_piece _ _ hq1 hq2]
-
-/-- and from the other side, on the whole target domain -/
-theorem pwa_pinv_right {m : PWA} (hnd : NonDegenerate m) (hc : TargetConsistent m.pinv) {x y : P2}
-    (h : m.pinv.apply y = some x) : m.apply x = some y := by
-  have := pwa_pinv_left (m := m.pinv) (nonDegenerate_pinv hnd) hc h
-  rwa [pinv_pinv] at this
-
-/-- mesh level: the inverse built by the code (same trilist on the target points) is the exchanged pair list -/
-theorem mesh_pinv (m : PWAMesh) : m.pinv.toPWA = m.toPWA.pinv := by
-  simp [PWAMesh.pinv, PWAMesh.toPWA, PWA.pinv, List.map_map, Function.comp_def]
-
-/-- the inverse mesh has source and target exchanged and the same triangles -/
-theorem mesh_pinv_ends (m : PWAMesh) :
-    m.pinv.src = m.tgt ∧ m.pinv.tgt = m.src ∧ m.pinv.tris = m.tris := ⟨rfl, rfl, rfl⟩
-
-/-- landmarks return: a target vertex of a triangle goes back to the source vertex -/
-theorem piece_vertex_a (s t : Tri) (hs : s.cross ≠ 0) : piece s t s.a = t.a := by
-  have : s.a = s.combo 0 0 := by apply P2.ext' <;> simp [Tri.combo]
-  rw [piece_eq]; conv_lhs => rw [this, ab_combo s hs]
-  apply P2.ext' <;> simp [Tri.combo]
-theorem piece_vertex_b (s t : Tri) (hs : s.cross ≠ 0) : piece s t s.b = t.b := by
-  have : s.b = s.combo 1 0 := by apply P2.ext' <;> simp [Tri.combo]
-  rw [piece_eq]; conv_lhs => rw [this, ab_combo s hs]
-  apply P2.ext' <;> simp [Tri.combo]
-theorem piece_vertex_c (s t : Tri) (hs : s.cross ≠ 0) : piece s t s.c = t.c := by
-  have : s.c = s.combo 0 1 := by apply P2.ext' <;> simp [Tri.combo]
-  rw [piece_eq]; conv_lhs => rw [this, ab_combo s hs]
-  apply P2.ext' <;> simp [Tri.combo]
-
-/-- continuity across a shared edge: two triangle pairs that share an edge (here: `q`'s edge `a–b`
-is `r`'s edge `b–a`, the orientation-consistent case) agree on every point of that edge -/
-theorem pwa_edge_continuity (s t s' t' : Tri) (hs : s.cross ≠ 0) (hs' : s'.cross ≠ 0)
-    (e1 : s'.a = s.b) (e2 : s'.b = s.a) (f1 : t'.a = t.b) (f2 : t'.b = t.a) (u : ℚ) :
-    piece s t (s.combo u 0) = piece s' t' (s.combo u 0) := by
-  have h2 : s.combo u 0 = s'.combo (1 - u) 0 := by
-    apply P2.ext' <;> simp [Tri.combo, e1, e2] <;> ring
-  rw [piece_eq, ab_combo s hs]
-  conv_rhs => rw [h2, piece_eq, ab_combo s' hs']
-  apply P2.ext' <;> simp [Tri.combo, f1, f2] <;> ring
-
-
-/-! ### the hypotheses are satisfiable: a square split along its diagonal, sheared and stretched -/
-
-def exMesh : PWAMesh :=
-  ⟨[⟨0, 0⟩, ⟨1, 0⟩, ⟨1, 1⟩, ⟨0, 1⟩], [⟨0, 0⟩, ⟨2, 0⟩, ⟨3, 2⟩, ⟨0, 1⟩], [(0, 1, 2), (0, 2, 3)]⟩
-
-theorem exMesh_nd : NonDegenerate exMesh.toPWA := by
-  intro q hq
-  simp [exMesh, PWAMesh.toPWA, triOf] at hq
-  rcases hq with rfl | rfl <;> (constructor <;> norm_num [Tri.cross])
-
-theorem exMesh_tc : TargetConsistent exMesh.toPWA := by
-  intro q hq r hr y hqy hry
-  simp [exMesh, PWAMesh.toPWA, triOf] at hq hr
-  rcases hq with rfl | rfl <;> rcases hr with rfl | rfl
-  · rfl
-  · simp only [Tri.contains, Tri.ab, P2.dot, P2.sub_x, P2.sub_y, Bool.and_eq_true, decide_eq_true_eq] at hqy hry
-    apply P2.ext' <;>
-      simp only [piece, Tri.ab, P2.dot, P2.sub_x, P2.sub_y, P2.add_x, P2.add_y, P2.smul_x, P2.smul_y] <;>
-      norm_num at hqy hry ⊢ <;> linarith [hqy.1.1, hqy.1.2, hqy.2, hry.1.1, hry.1.2, hry.2]
-  · simp only [Tri.contains, Tri.ab, P2.dot, P2.sub_x, P2.sub_y, Bool.and_eq_true, decide_eq_true_eq] at hqy hry
-    apply P2.ext' <;>
-      simp only [piece, Tri.ab, P2.dot, P2.sub_x, P2.sub_y, P2.add_x, P2.add_y, P2.smul_x, P2.smul_y] <;>
-      norm_num at hqy hry ⊢ <;> linarith [hqy.1.1, hqy.1.2, hqy.2, hry.1.1, hry.1.2, hry.2]
-  · rfl
-
-example : exMesh.toPWA.apply ⟨1/2, 1/4⟩ = some ⟨5/4, 1/2⟩ ∧
-    exMesh.pinv.toPWA.apply ⟨5/4, 1/2⟩ = some ⟨1/2, 1/4⟩ := by
-  refine ⟨by decide +kernel, ?_⟩
-  rw [mesh_pinv]
-  exact pwa_pinv_left exMesh_nd exMesh_tc (by decide +kernel)
-
-
-/-- PROPERTY (PWA landmarks): each vertex of a target triangle is sent by that triangle's inverse piece exactly
-onto the corresponding source vertex -/
-theorem pwa_pinv_landmarks {m : PWA} (hnd : NonDegenerate m) (q : Tri × Tri) (hq : q ∈ m) :
-    piece q.2 q.1 q.2.a = q.1.a ∧ piece q.2 q.1 q.2.b = q.1.b ∧ piece q.2 q.1 q.2.c = q.1.c :=
-  ⟨piece_vertex_a _ _ (hnd q hq).2, piece_vertex_b _ _ (hnd q hq).2, piece_vertex_c _ _ (hnd q hq).2⟩
-
-/-! ## thin plate splines -/
-
-/-- a spline whose kernel is centred on its own source points interpolates -/
-theorem tps_interpolates {n : ℕ} (φ : ℚ → ℚ) (t : TPS n) (hc : t.ctr = t.src) {C : Idx n → P2}
-    (h : t.coef φ = some C) (i : Fin n) : t.eval φ C (t.src i) = t.tgt i := by
-  unfold TPS.coef at h
-  have hs := solve_sound h (.inl i)
-  rw [hc] at hs
-  simp only [sysL_symm φ t.src _ (Sum.inl i), rhs] at hs
-  apply P2.ext'
-  · rw [← hs.1]; unfold TPS.eval; simp only [hc]
-    congr 1; funext j; cases j <;> simp [sysL]
-  · rw [← hs.2]; unfold TPS.eval; simp only [hc]
-    congr 1; funext j; cases j <;> simp [sysL]
-
-
-/-- if the spline is solvable at all, `apply` sends each source landmark exactly onto its target landmark -/
-theorem tps_apply_landmark {n : ℕ} (φ : ℚ → ℚ) (t : TPS n) (hc : t.ctr = t.src) (i : Fin n) {z : P2}
-    (h : t.apply φ (t.src i) = some z) : z = t.tgt i := by
-  unfold TPS.apply at h
-  cases hC : t.coef φ with
-  | none => rw [hC] at h; cases h
-  | some C =>
-    rw [hC] at h
-    rw [← Option.some.inj h]
-    exact tps_interpolates φ t hc hC i
-
-/-- PROPERTY (TPS, repaired inverse): the pseudoinverse is the spline fitted in the reverse direction — source and
-target exchanged, kernel centred on the new source — and it sends every target landmark exactly back onto its
-source landmark (for any kernel function `φ`, whenever the reverse system is solvable). -/
-theorem tps_pinvFixed_reverse_fit {n : ℕ} (φ : ℚ → ℚ) (t : TPS n) :
-    t.pinvFixed = TPS.fit t.tgt t.src ∧ t.pinvFixed.src = t.tgt ∧ t.pinvFixed.tgt = t.src ∧
-      ∀ (i : Fin n) (z : P2), t.pinvFixed.apply φ (t.tgt i) = some z → z = t.src i :=
-  ⟨rfl, rfl, rfl, fun i _ h => tps_apply_landmark φ t.pinvFixed rfl i h⟩
-
-/-- the fitted spline itself (default kernel) interpolates -/
-theorem tps_fit_interpolates {n : ℕ} (φ : ℚ → ℚ) (src tgt : Fin n → P2) (i : Fin n) {z : P2}
-    (h : (TPS.fit src tgt).apply φ (src i) = some z) : z = tgt i :=
-  tps_apply_landmark φ (TPS.fit src tgt) rfl i h
-
-/-! ### the inverse as coded is refuted by a witness; the repaired one passes on the same data -/
-
-def exPts (l : List (ℚ × ℚ)) : Fin 5 → P2 := fun i => ⟨(l.getD i.val (0, 0)).1, (l.getD i.val (0, 0)).2⟩
-
-/-- the five-point example of DESIGN.md §7 #1 -/
-def exTPS : TPS 5 :=
-  TPS.fit (exPts [(-1, -1), (-1, 1), (1, -1), (1, 1), (0, 0)])
-    (exPts [(-2, -1), (-1, 2), (2, -2), (1, 1), (1/2, 1/4)])
-
-/-- a rational stand-in for the radial function (`r⁴`); the defect does not depend on the kernel -/
-def exφ (q : ℚ) : ℚ := q * q
-
-/-- non-vacuity of `tps_interpolates`: the example is solvable and interpolates -/
-theorem exTPS_interpolates : ∀ i : Fin 5, exTPS.apply exφ (exTPS.src i) = some (exTPS.tgt i) := by
-  decide +kernel
-
-/-- REFUTATION of the coded behaviour: `ThinPlateSplines(target, source, kernel=self.kernel)` keeps the kernel centred
-on the old source points; the resulting transform is solvable but does not send the target landmarks back onto the
-source landmarks (the last one should return to the origin). -/
-theorem tps_pinvCoded_refuted :
-    ∃ (φ : ℚ → ℚ) (t : TPS 5) (i : Fin 5) (z : P2), t.ctr = t.src ∧
-      t.pinvCoded.apply φ (t.tgt i) = some z ∧ z ≠ t.src i :=
-  ⟨exφ, exTPS, 4, ⟨-10402/433855, -670773/6941680⟩, rfl, by decide +kernel, by decide +kernel⟩
-
-/-- the repaired inverse on the same data returns every landmark -/
-theorem tps_pinvFixed_example : ∀ i : Fin 5, exTPS.pinvFixed.apply exφ (exTPS.tgt i) = some (exTPS.src i) := by
-  decide +kernel
-
-/-- and the coded inverse is not the reverse fit: its kernel centres are the old source points -/
-theorem tps_pinvCoded_not_reverse_fit : exTPS.pinvCoded.ctr 0 ≠ (TPS.fit exTPS.tgt exTPS.src).ctr 0 := by
-  decide +kernel
-
-end MenpoModel.C04
+import MenpoModel.Props.C04Base
+import MenpoModel.Props.C04Ops
+import MenpoModel.Props.C04Mesh
+import MenpoModel.Props.C04Tps
